@@ -1,6 +1,15 @@
 /-
 MBI image theorems for the `signedV1` family (classes whose `collect_data` resolves to the signedV1 collector).
 See Properties/C01.lean for the statements' meaning; base lemmas in Proofs/MbiBase.lean.
+
+Layout of the proofs (helper lemmas in namespace `SpsdkVerif.Mbi.SignedV1`):
+* `ClsF` / `CfgF`: what `ClassWF` / `cfgWF` say for a class of this family;
+* closed forms of `totalLen`, `totalLenForCertBlock`, `appLen`;
+* `imgOf`: the exported image as a concatenation of blocks (`export_eq`), its length and header words;
+* `ValidFrom` / `parseOrder_spec`: the order of the `mix_parse` calls is a permutation of the data mixins in which the
+  readers of the certificate block come after the mixin that parses it;
+* `build` / `step` / `fold_ok`: the parser's object after any set of `mix_parse` calls; `parseImage_eq`;
+* `cfg2`: the configuration of the parsed image, which exports to the same blocks.
 -/
 import SpsdkVerif.Proofs.MbiBase
 
@@ -9,24 +18,1371 @@ open SpsdkVerif SpsdkVerif.Misc SpsdkVerif.Crypto
 open SpsdkVerif.Generated.IvtConsts
 open SpsdkVerif.Generated.MbiClasses (MixinName Method Attr provider attrs preParsed isData parent countInLegacyCertBlockLen)
 
+namespace SignedV1
+
+/-! ### class facts -/
+
+/-- what `ClassWF` says about a class of the signedV1 family -/
+structure ClsF (c : Cls) : Prop where
+  hType : c.imageType ≤ imageTypeMask
+  hTz4 : c.tzSize % 4 = 0
+  aIvt : c.hasAttr .ivt_table = true
+  aClean : c.hasAttr .clean_ivt = true
+  hIvt : c.has .Mbi_MixinIvt = true
+  hApp : c.has .Mbi_MixinApp = true
+  hOrder : (parseOrder c).isSome = true
+  hAppAll : (c.appLenProviders.all fun o => o == none || o == some .Mbi_MixinApp || o == some .Mbi_MixinRelocTable) = true
+  hAppCnt : provCount c.appLenProviders .Mbi_MixinApp = 1
+  hRelCnt : provCount c.appLenProviders .Mbi_MixinRelocTable = if c.has .Mbi_MixinRelocTable = true then 1 else 0
+  aTab : c.hasAttr .app_table = c.has .Mbi_MixinRelocTable
+  aDis : c.hasAttr .disassembly_app_data = c.has .Mbi_MixinRelocTable
+  aLoad : c.hasAttr .load_address = c.has .Mbi_MixinLoadAddress
+  aSub : c.hasAttr .image_subtype = c.has .Mbi_MixinImageSubType
+  aVer : c.hasAttr .image_version = c.has .Mbi_MixinImageVersion
+  aV2T : c.hasAttr .image_version_to_image_type = c.has .Mbi_MixinImageVersion
+  aHw : c.hasAttr .user_hw_key_enabled = c.has .Mbi_MixinHwKey
+  aKs : c.hasAttr .key_store = c.has .Mbi_MixinKeyStore
+  aHmac : c.hasAttr .hmac_key = c.has .Mbi_MixinHmac
+  aBca : c.hasAttr .bca = false
+  aFcf : c.hasAttr .fcf = false
+  rDis : c.resolve .disassemble_image = some .Mbi_ExportMixinAppTrustZoneCertBlock
+  rEnc : c.resolve .encrypt = none
+  rPe : c.resolve .post_encrypt = none
+  sk : c.signKind = .rsa
+  hT0 : ¬ c.imageType = 0
+  hV1 : c.has .Mbi_MixinCertBlockV1 = true
+  hV21 : c.has .Mbi_MixinCertBlockV21 = false
+  aCert : c.hasAttr .cert_block = true
+  hTz : c.has .Mbi_MixinTrustZone = true
+  hMk : c.manifestKind = none
+  hCtr : c.has .Mbi_MixinCtrInitVector = false
+  rFin : (c.resolve .finalize == some .Mbi_ExportMixinHmacKeyStoreFinalize) = c.has .Mbi_MixinHmac
+  rFin2 : c.resolve .finalize = none ∨ c.has .Mbi_MixinHmac = true
+  hKsH : c.has .Mbi_MixinKeyStore = false ∨ c.has .Mbi_MixinHmac = true
+  lenP : lenProvidersAre c.lenProviders
+            ([.Mbi_MixinApp, .Mbi_MixinTrustZone, .Mbi_MixinCertBlockV1] ++
+                  optList (c.has .Mbi_MixinRelocTable) .Mbi_MixinRelocTable ++
+                optList (c.has .Mbi_MixinHmac) .Mbi_MixinHmac ++
+              optList (c.has .Mbi_MixinKeyStore) .Mbi_MixinKeyStore) = true
+  legP : lenProvidersAre c.legacyLenProviders
+          ([.Mbi_MixinApp, .Mbi_MixinTrustZone, .Mbi_MixinCertBlockV1] ++
+            optList (c.has .Mbi_MixinRelocTable) .Mbi_MixinRelocTable) = true
+  rCol : c.resolve .collect_data = some .Mbi_ExportMixinAppTrustZoneCertBlock
+
+theorem collector {c : Cls} (hf : c.family = some .signedV1) :
+    c.resolve .collect_data = some .Mbi_ExportMixinAppTrustZoneCertBlock := by
+  unfold Cls.family at hf
+  split at hf <;> simp_all
+
+theorem clsF {c : Cls} (h : ClassWF c = true) (hf : c.family = some .signedV1) : ClsF c := by
+  unfold ClassWF at h
+  simp only [hf, Bool.and_eq_true, beq_iff_eq, Bool.not_eq_true', bne_iff_ne, ne_eq, decide_eq_true_eq, Bool.or_eq_true,
+    Option.isNone_iff_eq_none] at h
+  simp only [and_assoc] at h
+  obtain ⟨a1, a2, a3, a4, a5, a6, a7, a8, a9, a10, a11, a12, a13, a14, a15, a16, a17, a18, a19, a20, a21,
+    b1, b2, b3, b4, b5, b6, b7, b8, b9, _, b10, b11, b12, b13, b14, b15, b16⟩ := h
+  exact ⟨a1, a2, a3, a4, a5, a6, a7, a8, a9, a10, a11, a12, a13, a14, a15, a16, a17, a18, a19, a20, a21,
+    b1, b2, b3, b4, b5, b6, b7, b8, b9, b10, b11, b12, b13, b14, b15, b16, collector hf⟩
+
+/-! ### configuration facts -/
+
+/-- what `cfgWF` says for a class of the signedV1 family -/
+structure CfgF (c : Cls) (cfg : Cfg) : Prop where
+  hval : validate c cfg = .ok ()
+  hpack : packGuard c cfg = .ok ()
+  hLA : cfg.loadAddress < 2 ^ 32
+  hVer : cfg.imageVersion < 2 ^ 16
+  hSub : cfg.subType ≤ subTypeMask
+  hFlags : flagsOf c cfg < 2 ^ 32
+  hTzc : ∀ d, cfg.tz = .custom d → d.length = c.tzSize ∧ c.tzSize > 0
+  hRel : ∀ es, cfg.reloc = some es → (∀ e ∈ es, relocEntryOk e = true) ∧ c.has .Mbi_MixinRelocTable = true ∧ es ≠ []
+  hKs : ∀ k, cfg.keyStore = some k → k.length = keyStoreSize ∧ c.has .Mbi_MixinKeyStore = true
+  hHk : ∀ k, cfg.hmacKey = some k → k.length = hmacKeyLength ∧ c.has .Mbi_MixinHmac = true
+  hHkN : cfg.hmacKey = none → c.has .Mbi_MixinHmac = false
+  hAppH : c.has .Mbi_MixinHmac = true → (appData cfg).length ≥ hmacOffset
+  hBca : cfg.bca = none
+  hFcf : cfg.fcf = none
+  hCertLen : cfg.cert.length ≥ certHeaderSize
+  hCertSig : cfg.cert.take 4 = certHeaderSignature
+  hCertHdr : rd32 cfg.cert 8 = certHeaderSize
+  hCertSz : certV1Size cfg.cert = cfg.cert.length
+  hSigLen : cfg.sigLen > 0
+  hDig : cfg.digest = none
+  hFwV : cfg.fwVersion = 0
+  dVer : c.has .Mbi_MixinImageVersion = false → cfg.imageVersion = 0
+  dSub : c.has .Mbi_MixinImageSubType = false → cfg.subType = 0
+  dHw : c.has .Mbi_MixinHwKey = false → cfg.hwKey = false
+  dLA : c.has .Mbi_MixinLoadAddress = false → cfg.loadAddress = 0
+  dCtr : cfg.ctrIv = []
+
+theorem cfgF {c : Cls} {cfg : Cfg} (k : ClsF c) (h : cfgWF c cfg = true) : CfgF c cfg := by
+  unfold cfgWF at h
+  simp only [Bool.and_eq_true, beq_iff_eq, bne_iff_ne, ne_eq, decide_eq_true_eq, Bool.not_eq_true',
+    Option.isNone_iff_eq_none, and_assoc] at h
+  obtain ⟨c1, c2, c3, c4, c5, c6, c7, c8, c9, c10, c11, c12, c13, c14, c15, c16, c17, c18, c19, c20, c21, c22, c23, c24,
+    c25, c26, c27⟩ := h
+  obtain ⟨d1, d2, d3, d4, d5⟩ := c17 k.hV1
+  refine ⟨c1, c2, c3, c4, c5, c7, ?_, ?_, ?_, ?_, ?_, c14, c15, c16, d1, d2, d3, d4, d5, ?_, ?_, c23, c24, c25, c26, ?_⟩
+  · intro d hd; rw [hd] at c8; simpa using c8
+  · intro es hes; rw [hes] at c10
+    simp only [Bool.and_eq_true, List.all_eq_true, Bool.not_eq_true', List.isEmpty_eq_false_iff] at c10
+    exact ⟨c10.1.1, c10.1.2, c10.2⟩
+  · intro ks hks; rw [hks] at c11; simpa using c11
+  · intro ks hks; rw [hks] at c12; simpa using c12
+  · intro hn; rw [hn] at c12; simpa using c12
+  · exact c20 (by rw [k.hMk]; simp)
+  · exact c22 k.hMk
+  · simpa using c27 k.hCtr
+
+
+/-! ### mixin list facts -/
+
+theorem forM_ok {α : Type} (f : α → PyRes Unit) : ∀ (l : List α), l.forM f = .ok () → ∀ m ∈ l, f m = .ok ()
+  | [], _, m, hm => by simp at hm
+  | x :: xs, h, m, hm => by
+    have e : (x :: xs).forM f = (f x >>= fun _ => xs.forM f) := rfl
+    rw [e] at h
+    simp only [bind, Except.bind] at h
+    cases hx : f x with
+    | error e => rw [hx] at h; simp at h
+    | ok u =>
+      rw [hx] at h
+      rcases List.mem_cons.1 hm with rfl | hm
+      · exact hx
+      · exact forM_ok f xs h m hm
+
+theorem forM_ok_of {α : Type} (f : α → PyRes Unit) : ∀ (l : List α), (∀ m ∈ l, f m = .ok ()) → l.forM f = .ok ()
+  | [], _ => rfl
+  | x :: xs, h => by
+    have e : (x :: xs).forM f = (f x >>= fun _ => xs.forM f) := rfl
+    rw [e]
+    simp only [bind, Except.bind]
+    rw [h x (by simp)]
+    exact forM_ok_of f xs (fun m hm => h m (by simp [hm]))
+
+theorem any_data (c : Cls) (f g : MixinName → Bool) (hfg : ∀ m, (isData m && f m) = g m) :
+    c.dataMixins.any f = c.mixins.any g := by
+  simp only [Cls.dataMixins, List.any_filter]
+  congr 1
+  funext m
+  exact hfg m
+
+theorem app_mem {c : Cls} (h : c.has .Mbi_MixinApp = true) : .Mbi_MixinApp ∈ c.dataMixins := by
+  simp only [Cls.has, List.any_eq_true] at h
+  obtain ⟨m, hm, hd⟩ := h
+  have : m = .Mbi_MixinApp := by cases m <;> first | rfl | (revert hd; decide)
+  subst this
+  simp [Cls.dataMixins, hm, isData]
+
+theorem app_ge {c : Cls} {cfg : Cfg} (k : ClsF c) (hval : validate c cfg = .ok ()) : minIvtSize ≤ (appData cfg).length := by
+  have := forM_ok _ _ hval _ (app_mem k.hApp)
+  have hp : provider .Mbi_MixinApp .mix_validate = some .Mbi_MixinApp := rfl
+  simp only [validateMixin, hp] at this
+  split at this
+  · simp at this
+  · simp only [minAppSize] at *; simp only [minIvtSize]; omega
+
+/-! ### closed forms of the length sums -/
+
+theorem totalLen_sum (c : Cls) (cfg : Cfg) (exp : List MixinName) (h : lenProvidersAre c.lenProviders exp = true) :
+    totalLen c cfg = (exp.map (mixLenOf c cfg)).sum := by
+  rw [← sum_of_lenProvidersAre c.lenProviders exp (mixLenOf c cfg) h]
+  simp only [totalLen, Cls.lenProviders, List.map_map]
+  congr 1
+
+theorem legacyLen_sum (c : Cls) (cfg : Cfg) (exp : List MixinName) (h : lenProvidersAre c.legacyLenProviders exp = true) :
+    totalLenForCertBlock c cfg = (exp.map (mixLenOf c cfg)).sum := by
+  rw [← sum_of_lenProvidersAre c.legacyLenProviders exp (mixLenOf c cfg) h]
+  simp only [totalLenForCertBlock, Cls.legacyLenProviders, List.map_map]
+  congr 1
+
+theorem appLen_aux (f : MixinName → Nat) (l : List (Option MixinName))
+    (hall : l.all (fun o => o == none || o == some .Mbi_MixinApp || o == some .Mbi_MixinRelocTable) = true) :
+    (l.map (fun o => match o with | some .Mbi_MixinApp => f .Mbi_MixinApp | some .Mbi_MixinRelocTable => f .Mbi_MixinRelocTable | _ => 0)).sum
+      = provCount l .Mbi_MixinApp * f .Mbi_MixinApp + provCount l .Mbi_MixinRelocTable * f .Mbi_MixinRelocTable := by
+  induction l with
+  | nil => simp [provCount]
+  | cons o os ih =>
+    simp only [List.all_cons, Bool.and_eq_true] at hall
+    have := ih hall.2
+    simp only [provCount] at this ⊢
+    simp only [List.map_cons, List.sum_cons, this, List.count_cons]
+    rcases o with _ | m
+    · simp
+    · have h1 := hall.1
+      simp only [Bool.or_eq_true, beq_iff_eq] at h1
+      rcases h1 with (h1 | h1) | h1
+      · simp at h1
+      · cases h1; simp [Nat.add_mul]; omega
+      · cases h1; simp [Nat.add_mul]; omega
+
+theorem appLen_eq {c : Cls} (cfg : Cfg) (k : ClsF c) :
+    appLen c cfg = (appData cfg).length + (if c.has .Mbi_MixinRelocTable then relocLen c cfg else 0) := by
+  have := appLen_aux (fun m => match m with | .Mbi_MixinApp => (appData cfg).length | _ => relocLen c cfg)
+    c.appLenProviders k.hAppAll
+  rw [k.hAppCnt, k.hRelCnt] at this
+  simp only [appLen, Cls.appLenProviders, List.map_map] at this ⊢
+  have e : (List.map (mixAppLen c cfg) c.dataMixins).sum = 1 * List.length (appData cfg)
+      + (if c.has MixinName.Mbi_MixinRelocTable = true then 1 else 0) * relocLen c cfg := by
+    refine Eq.trans ?_ this
+    congr 1
+  rw [e]
+  split <;> simp
+
+theorem totalLen_eq0 {c : Cls} (cfg : Cfg) (k : ClsF c) :
+    totalLen c cfg = mixLenOf c cfg .Mbi_MixinApp + mixLenOf c cfg .Mbi_MixinTrustZone + mixLenOf c cfg .Mbi_MixinCertBlockV1
+        + (if c.has .Mbi_MixinRelocTable then mixLenOf c cfg .Mbi_MixinRelocTable else 0)
+        + (if c.has .Mbi_MixinHmac then mixLenOf c cfg .Mbi_MixinHmac else 0)
+        + (if c.has .Mbi_MixinKeyStore then mixLenOf c cfg .Mbi_MixinKeyStore else 0) := by
+  rw [totalLen_sum c cfg _ k.lenP]
+  cases c.has .Mbi_MixinRelocTable <;> cases c.has .Mbi_MixinHmac <;> cases c.has .Mbi_MixinKeyStore <;>
+    simp only [optList, List.map_cons, List.map_nil, List.sum_cons, List.sum_nil, List.append_nil,
+      List.cons_append, List.nil_append, if_true, if_false, Bool.false_eq_true] <;> omega
+
+theorem legacyLen_eq0 {c : Cls} (cfg : Cfg) (k : ClsF c) :
+    totalLenForCertBlock c cfg = mixLenOf c cfg .Mbi_MixinApp + mixLenOf c cfg .Mbi_MixinTrustZone
+        + mixLenOf c cfg .Mbi_MixinCertBlockV1
+        + (if c.has .Mbi_MixinRelocTable then mixLenOf c cfg .Mbi_MixinRelocTable else 0) := by
+  rw [legacyLen_sum c cfg _ k.legP]
+  cases c.has .Mbi_MixinRelocTable <;>
+    simp only [optList, List.map_cons, List.map_nil, List.sum_cons, List.sum_nil, List.append_nil,
+      List.cons_append, List.nil_append, if_true, if_false, Bool.false_eq_true] <;> omega
+
+/-- length of the key store block -/
+def ksLen (cfg : Cfg) : Nat := (cfg.keyStore.getD []).length
+/-- bytes inserted at offset 64 by `finalize` -/
+def shift (c : Cls) (cfg : Cfg) : Nat := if c.has .Mbi_MixinHmac then hmacSize + ksLen cfg else 0
+
+theorem legacyLen_nat {c : Cls} (cfg : Cfg) (k : ClsF c) :
+    totalLenForCertBlock c cfg = ((appLen c cfg + cfg.cert.length + cfg.tz.bytes.length : Nat) : Int) := by
+  rw [legacyLen_eq0 cfg k, appLen_eq cfg k]
+  simp only [mixLenOf]
+  split <;> push_cast <;> omega
+
+theorem totalLen_nat {c : Cls} {cfg : Cfg} (k : ClsF c) (g : CfgF c cfg) :
+    totalLen c cfg = ((appLen c cfg + shift c cfg + cfg.cert.length + cfg.tz.bytes.length : Nat) : Int) := by
+  rw [totalLen_eq0 cfg k, appLen_eq cfg k]
+  have eK : mixLenOf c cfg .Mbi_MixinKeyStore = ((ksLen cfg : Nat) : Int) := by
+    simp only [mixLenOf, ksLen]; cases cfg.keyStore <;> rfl
+  have eK0 : c.has .Mbi_MixinKeyStore = false → ksLen cfg = 0 := by
+    intro h; unfold ksLen
+    cases hks : cfg.keyStore with
+    | none => rfl
+    | some ks => have := (g.hKs ks hks).2; rw [h] at this; cases this
+  have eH : c.has .Mbi_MixinHmac = true → mixLenOf c cfg .Mbi_MixinHmac = (hmacSize : Int) := by
+    intro h; simp only [mixLenOf]
+    cases hk : cfg.hmacKey with
+    | none => have := g.hHkN hk; rw [h] at this; cases this
+    | some _ => rfl
+  have eA : mixLenOf c cfg .Mbi_MixinApp = ((appData cfg).length : Int) := rfl
+  have eT : mixLenOf c cfg .Mbi_MixinTrustZone = (cfg.tz.bytes.length : Int) := rfl
+  have eC : mixLenOf c cfg .Mbi_MixinCertBlockV1 = (cfg.cert.length : Int) := rfl
+  have eR : mixLenOf c cfg .Mbi_MixinRelocTable = (relocLen c cfg : Int) := rfl
+  have eRR : (if c.has .Mbi_MixinRelocTable = true then (relocLen c cfg : Int) else 0)
+      = ((if c.has .Mbi_MixinRelocTable = true then relocLen c cfg else 0 : Nat) : Int) := by split <;> rfl
+  rw [eK, eA, eT, eC, eR, eRR]
+  unfold shift
+  have hor := k.hKsH
+  cases hH : c.has .Mbi_MixinHmac <;> cases hK : c.has .Mbi_MixinKeyStore <;> rw [hH, hK] at hor
+  · have := eK0 hK
+    simp only [Bool.false_eq_true, if_false]; push_cast; omega
+  · simp at hor
+  · have := eK0 hK; have := eH hH
+    simp only [Bool.false_eq_true, if_false, if_true]; push_cast; omega
+  · have := eH hH
+    simp only [if_true]; push_cast; omega
+
+
+/-! ### the blocks of the image -/
+
+/-- the application with its IVT filled in -/
+def ivtApp (c : Cls) (cfg : Cfg) : Bytes :=
+  updateIvt c cfg (appData cfg) ((totalLen c cfg).toNat + cfg.sigLen) (appLen c cfg)
+/-- the relocation table behind the application -/
+def relocBlk (cfg : Cfg) : Bytes :=
+  match cfg.reloc with
+  | some es => relocExport es (appData cfg).length
+  | none => []
+/-- what `collect_data` returns -/
+def rawOf (c : Cls) (cfg : Cfg) : Bytes := ivtApp c cfg ++ relocBlk cfg ++ certInImage c cfg ++ cfg.tz.bytes
+/-- HMAC and key store, inserted at offset 64 -/
+def insOf (co : CryptoOps) (c : Cls) (cfg : Cfg) : Bytes :=
+  if c.has .Mbi_MixinHmac then computeHmac co cfg ((ivtApp c cfg).take hmacOffset) ++ (cfg.keyStore.getD []) else []
+/-- the exported image with signature `sig` -/
+def imgOf (co : CryptoOps) (c : Cls) (cfg : Cfg) (sig : Bytes) : Bytes :=
+  (ivtApp c cfg).take hmacOffset ++ insOf co c cfg
+    ++ ((ivtApp c cfg).drop hmacOffset ++ relocBlk cfg ++ certInImage c cfg ++ cfg.tz.bytes ++ sig)
+
+theorem certInImage_eq {c : Cls} (cfg : Cfg) (k : ClsF c) :
+    certInImage c cfg = certSetImageLength cfg.cert (totalLenForCertBlock c cfg).toNat := by
+  simp only [certInImage, k.rPe]
+
+theorem certInImage_length {c : Cls} {cfg : Cfg} (k : ClsF c) (g : CfgF c cfg) :
+    (certInImage c cfg).length = cfg.cert.length := by
+  rw [certInImage_eq cfg k, certSetImageLength]
+  apply setAt_length
+  have := g.hCertLen
+  simp only [certHeaderSize, certImageLengthOffset, le32_length] at *
+  omega
+
+theorem ivtApp_length {c : Cls} {cfg : Cfg} (k : ClsF c) (g : CfgF c cfg) : (ivtApp c cfg).length = (appData cfg).length :=
+  updateIvt_length _ _ _ _ _ (app_ge k g.hval)
+
+theorem reloc_attr {c : Cls} {cfg : Cfg} (k : ClsF c) (g : CfgF c cfg) :
+    (if c.hasAttr .app_table then cfg.reloc else none) = cfg.reloc := by
+  rw [k.aTab]
+  cases h : cfg.reloc with
+  | none => simp
+  | some es => simp [(g.hRel es h).2.1]
+
+theorem relocBlk_length {c : Cls} {cfg : Cfg} (_k : ClsF c) (g : CfgF c cfg) :
+    (relocBlk cfg).length = (if c.has .Mbi_MixinRelocTable then relocLen c cfg else 0) := by
+  unfold relocBlk relocLen
+  cases h : cfg.reloc with
+  | none => simp
+  | some es => simp only [(g.hRel es h).2.1, if_true]; exact relocExport_length_indep _ _ _
+
+theorem appLen_blocks {c : Cls} {cfg : Cfg} (k : ClsF c) (g : CfgF c cfg) :
+    appLen c cfg = (ivtApp c cfg).length + (relocBlk cfg).length := by
+  rw [appLen_eq cfg k, ivtApp_length k g, relocBlk_length k g]
+
+theorem collect_eq {c : Cls} {cfg : Cfg} (k : ClsF c) (g : CfgF c cfg) : collect c cfg = .ok (rawOf c cfg) := by
+  have hge := app_ge k g.hval
+  have hc := g.hCertLen
+  simp only [minIvtSize, certHeaderSize] at hge hc
+  have h1 : ¬ ((appData cfg).isEmpty = true ∨ cfg.cert.isEmpty = true) := by
+    simp only [List.isEmpty_iff]
+    rintro (h | h)
+    · rw [h] at hge; simp at hge
+    · rw [h] at hc; simp at hc
+  have h2 : ¬ totalLenForCertBlock c cfg ≤ 0 := by
+    rw [legacyLen_nat cfg k, appLen_eq cfg k]; omega
+  simp only [collect, k.rCol, collectAppTzCert, if_neg h1, if_neg h2, reloc_attr k g]
+  rw [rawOf, certInImage_eq cfg k]
+  congr 4
+  unfold relocBlk
+  cases cfg.reloc with
+  | none => rfl
+  | some es => simp only; rw [← ivtApp_length k g]; rfl
+
+
+theorem resolve_finalize {c : Cls} (k : ClsF c) :
+    c.resolve .finalize = if c.has .Mbi_MixinHmac then some .Mbi_ExportMixinHmacKeyStoreFinalize else none := by
+  have h1 := k.rFin
+  have h2 := k.rFin2
+  cases hH : c.has .Mbi_MixinHmac with
+  | true => rw [hH] at h1; simpa using h1
+  | false => rw [hH] at h2; simpa using h2
+
+theorem take_append_take (a b : Bytes) (n : Nat) (h : n ≤ a.length) : (a ++ b).take n = a.take n := by
+  rw [List.take_append_of_le_length h]
+
+theorem drop_append_drop (a b : Bytes) (n : Nat) (h : n ≤ a.length) : (a ++ b).drop n = a.drop n ++ b := by
+  rw [List.drop_append_of_le_length h]
+
+theorem export_eq {co : CryptoOps} {c : Cls} {cfg : Cfg} (signer : Signer) (k : ClsF c) (g : CfgF c cfg) :
+    exportImage co c cfg signer = .ok (imgOf co c cfg (signer (rawOf c cfg))) := by
+  simp only [exportImage, bind, Except.bind, g.hval, g.hpack, collect_eq k g, encryptStage, k.rEnc, postEncryptStage, k.rPe,
+    signStage, k.sk, finalizeStage, resolve_finalize k]
+  unfold imgOf insOf
+  cases hH : c.has .Mbi_MixinHmac with
+  | false =>
+    simp only [Bool.false_eq_true, if_false, List.append_nil, rawOf]
+    have e : ∀ (x y : Bytes), x ++ y = x.take hmacOffset ++ (x.drop hmacOffset ++ y) := by
+      intro x y; rw [← List.append_assoc, List.take_append_drop]
+    simp only [List.append_assoc]
+    exact congrArg _ (e _ _)
+  | true =>
+    have hlen : hmacOffset ≤ (ivtApp c cfg).length := by rw [ivtApp_length k g]; exact g.hAppH hH
+    have e1 : (rawOf c cfg ++ signer (rawOf c cfg)).take hmacOffset = (ivtApp c cfg).take hmacOffset := by
+      simp only [rawOf, List.append_assoc]; exact take_append_take _ _ _ hlen
+    have e2 : (rawOf c cfg ++ signer (rawOf c cfg)).drop hmacOffset
+        = (ivtApp c cfg).drop hmacOffset ++ relocBlk cfg ++ certInImage c cfg ++ cfg.tz.bytes ++ signer (rawOf c cfg) := by
+      simp only [rawOf, List.append_assoc]; exact drop_append_drop _ _ _ hlen
+    have hl : ¬ (rawOf c cfg ++ signer (rawOf c cfg)).length < hmacOffset := by
+      simp only [rawOf, List.length_append]; omega
+    simp only [if_true, if_neg hl, e1, e2, List.append_assoc]
+
+
+theorem insOf_length {co : CryptoOps} {c : Cls} {cfg : Cfg} (hl : CryptoLaws co) (g : CfgF c cfg) :
+    (insOf co c cfg).length = shift c cfg := by
+  unfold insOf shift ksLen
+  cases hH : c.has .Mbi_MixinHmac with
+  | false => simp
+  | true =>
+    cases hk : cfg.hmacKey with
+    | none => have := g.hHkN hk; rw [hH] at this; simp at this
+    | some key =>
+      simp only [if_true, List.length_append, computeHmac, hk, hmac_length hl, HashAlg.size, hmacSize]
+
+theorem imgOf_length {co : CryptoOps} {c : Cls} {cfg : Cfg} (hl : CryptoLaws co) (k : ClsF c) (g : CfgF c cfg) (sig : Bytes) :
+    (imgOf co c cfg sig).length = appLen c cfg + shift c cfg + cfg.cert.length + cfg.tz.bytes.length + sig.length := by
+  unfold imgOf
+  simp only [List.length_append, List.length_take, List.length_drop, insOf_length hl g, certInImage_length k g,
+    appLen_blocks k g]
+  omega
+
+theorem imgOf_length_total {co : CryptoOps} {c : Cls} {cfg : Cfg} (hl : CryptoLaws co) (k : ClsF c) (g : CfgF c cfg)
+    (sig : Bytes) (hs : sig.length = cfg.sigLen) :
+    (imgOf co c cfg sig).length = (totalLen c cfg).toNat + cfg.sigLen := by
+  rw [imgOf_length hl k g, totalLen_nat k g, hs]
+  omega
+
+
+/-! ### header words -/
+
+theorem pack_bound {c : Cls} {cfg : Cfg} (g : CfgF c cfg) :
+    0 ≤ totalLen c cfg ∧ totalLen c cfg + cfg.sigLen + encIvtCopySize + encIvSize < 2 ^ 32 := by
+  have h := g.hpack
+  unfold packGuard at h
+  split at h
+  · simp at h
+  · rename_i hn
+    simp only [not_or] at hn
+    exact ⟨by omega, by omega⟩
+
+theorem total_bound {c : Cls} {cfg : Cfg} (k : ClsF c) (g : CfgF c cfg) :
+    (totalLen c cfg).toNat + cfg.sigLen < 2 ^ 32 ∧ appLen c cfg < 2 ^ 32 := by
+  have := pack_bound g
+  rw [totalLen_nat k g] at this ⊢
+  simp only [encIvtCopySize, encIvSize] at this
+  omega
+
+theorem ivtApp_words {c : Cls} {cfg : Cfg} (k : ClsF c) (g : CfgF c cfg) :
+    rd32 (ivtApp c cfg) ivtImageLengthOffset = (if c.zeroTotalLength then 0 else (totalLen c cfg).toNat + cfg.sigLen)
+    ∧ rd32 (ivtApp c cfg) ivtImageFlagsOffset = flagsOf c cfg
+    ∧ rd32 (ivtApp c cfg) ivtCrcCertificateOffset = appLen c cfg
+    ∧ rd32 (ivtApp c cfg) ivtLoadAddrOffset = (if c.has .Mbi_MixinLoadAddress then cfg.loadAddress else 0) := by
+  have hb := total_bound k g
+  have := updateIvt_words c cfg (appData cfg) ((totalLen c cfg).toNat + cfg.sigLen) (appLen c cfg) (app_ge k g.hval)
+    g.hFlags hb.1 hb.2 g.hLA
+  simp only [if_neg k.hT0, k.aLoad] at this
+  exact this
+
+theorem rd32_take (x : Bytes) (n off : Nat) (h : off + 4 ≤ n) : rd32 (x.take n) off = rd32 x off := by
+  unfold rd32
+  rw [List.drop_take, List.take_take]
+  rw [show min 4 (n - off) = 4 by omega]
+
+/-- the first 56 bytes of the image are those of the application with its IVT -/
+theorem imgOf_head {c : Cls} {cfg : Cfg} (co : CryptoOps) (k : ClsF c) (g : CfgF c cfg) (sig : Bytes) (off : Nat)
+    (ho : off + 4 ≤ 56) : rd32 (imgOf co c cfg sig) off = rd32 (ivtApp c cfg) off := by
+  have hge := app_ge k g.hval
+  simp only [minIvtSize] at hge
+  unfold imgOf
+  rw [List.append_assoc, rd32_append_left _ _ _ (by rw [List.length_take, ivtApp_length k g, hmacOffset]; omega),
+    rd32_take _ _ _ (by rw [hmacOffset]; omega)]
+
+/-- everything in front of the certificate block -/
+def preOf (co : CryptoOps) (c : Cls) (cfg : Cfg) : Bytes :=
+  (ivtApp c cfg).take hmacOffset ++ insOf co c cfg ++ ((ivtApp c cfg).drop hmacOffset ++ relocBlk cfg)
+
+theorem imgOf_split (co : CryptoOps) (c : Cls) (cfg : Cfg) (sig : Bytes) :
+    imgOf co c cfg sig = preOf co c cfg ++ certInImage c cfg ++ (cfg.tz.bytes ++ sig) := by
+  simp only [imgOf, preOf, List.append_assoc]
+
+theorem preOf_length {co : CryptoOps} {c : Cls} {cfg : Cfg} (hl : CryptoLaws co) (k : ClsF c) (g : CfgF c cfg) :
+    (preOf co c cfg).length = appLen c cfg + shift c cfg := by
+  unfold preOf
+  simp only [List.length_append, List.length_take, List.length_drop, insOf_length hl g, appLen_blocks k g]
+  omega
+
+
+/-! ### the flag word -/
+
+theorem tag_le (t : TzCfg) : t.tag ≤ tzTypeMask := by cases t <;> simp [TzCfg.tag, tzTypeMask, tzEnabled, tzCustom, tzDisabled]
+
+theorem flags_get {c : Cls} {cfg : Cfg} (k : ClsF c) (g : CfgF c cfg) :
+    getTzType (flagsOf c cfg) = cfg.tz.tag
+    ∧ getSubType (flagsOf c cfg) = (if c.has .Mbi_MixinImageSubType then cfg.subType else 0)
+    ∧ getHwKeyEnabled (flagsOf c cfg) = (c.has .Mbi_MixinHwKey && cfg.hwKey)
+    ∧ getKeyStorePresented (flagsOf c cfg) = cfg.keyStore.isSome
+    ∧ getAppTablePresented (flagsOf c cfg) = cfg.reloc.isSome
+    ∧ getImageVersion (flagsOf c cfg) = (if c.has .Mbi_MixinImageVersion then cfg.imageVersion else 0) := by
+  have hv : cfg.imageVersion ≤ imgVerMask := by have := g.hVer; simp only [imgVerMask]; omega
+  obtain ⟨_, f2, f3, f4, f5, f6, f7, _⟩ := flags_fields c.imageType cfg.tz.tag cfg.subType cfg.imageVersion
+    (match cfg.keyStore with | some b => b.length | none => 0)
+    c.hasTrustZone (c.hasAttr .image_subtype) (c.hasAttr .user_hw_key_enabled) cfg.hwKey (c.hasAttr .key_store)
+    cfg.keyStore.isSome (c.hasAttr .app_table) cfg.reloc.isSome (c.hasAttr .image_version)
+    (c.hasAttr .image_version_to_image_type) true k.hType (tag_le _) g.hSub hv
+  have hTZ : c.hasTrustZone = true := by simp [Cls.hasTrustZone, k.hTz]
+  refine ⟨?_, ?_, ?_, ?_, ?_, ?_⟩
+  · exact f2.trans (by simp [hTZ])
+  · exact f3.trans (by rw [k.aSub])
+  · exact f4.trans (by rw [k.aHw])
+  · refine f5.trans ?_
+    rw [k.aKs]
+    cases hks : cfg.keyStore with
+    | none => simp
+    | some ks => have := g.hKs ks hks; simp [this.2, this.1, keyStoreSize]
+  · refine f6.trans ?_
+    rw [k.aTab]
+    cases hr : cfg.reloc with
+    | none => simp
+    | some es => simp [(g.hRel es hr).2.1]
+  · refine f7.trans ?_
+    rw [k.aVer, k.aV2T]
+    cases c.has .Mbi_MixinImageVersion <;> simp
+
+
+/-! ### disassemble -/
+
+theorem canon_app {c : Cls} (cfg : Cfg) (dek : Option Bytes) (k : ClsF c) :
+    (canon c cfg dek).app = some (cleanIvt (appData cfg)) := by
+  simp only [canon, k.aClean, if_true]
+
+theorem rawOf_split (c : Cls) (cfg : Cfg) :
+    rawOf c cfg = (ivtApp c cfg ++ relocBlk cfg) ++ (certInImage c cfg ++ cfg.tz.bytes) := by
+  simp only [rawOf, List.append_assoc]
+
+theorem rawOf_word {c : Cls} {cfg : Cfg} (k : ClsF c) (g : CfgF c cfg) (off : Nat) (ho : off + 4 ≤ 56) :
+    rd32 (rawOf c cfg) off = rd32 (ivtApp c cfg) off := by
+  have hge := app_ge k g.hval
+  simp only [minIvtSize] at hge
+  simp only [rawOf, List.append_assoc]
+  exact rd32_append_left _ _ _ (by rw [ivtApp_length k g]; omega)
+
+theorem disassemblyAppData_eq {c : Cls} {cfg : Cfg} (k : ClsF c) (g : CfgF c cfg) (p : Parsed) (hr : p.reloc = none) :
+    disassemblyAppData c p (ivtApp c cfg ++ relocBlk cfg)
+      = .ok ({ p with reloc := if c.has .Mbi_MixinRelocTable then cfg.reloc else none }, ivtApp c cfg) := by
+  have hge := app_ge k g.hval
+  simp only [minIvtSize] at hge
+  have hfl : flagsIn (ivtApp c cfg ++ relocBlk cfg) = flagsOf c cfg := by
+    unfold flagsIn
+    rw [rd32_append_left _ _ _ (by rw [ivtApp_length k g, ivtImageFlagsOffset]; omega)]
+    exact (ivtApp_words k g).2.1
+  have hp : p = { p with reloc := none } := by cases p; simp at hr; subst hr; rfl
+  unfold disassemblyAppData
+  rw [k.aDis, hfl, (flags_get k g).2.2.2.2.1]
+  cases hR : c.has .Mbi_MixinRelocTable with
+  | false =>
+    have : cfg.reloc = none := by
+      cases hc : cfg.reloc with
+      | none => rfl
+      | some es => have := (g.hRel es hc).2.1; rw [hR] at this; cases this
+    simp only [Bool.false_eq_true, if_false, relocBlk, this, List.append_nil]
+    rw [← hp]
+  | true =>
+    cases hc : cfg.reloc with
+    | none => simp [relocBlk, hc]
+    | some es =>
+      obtain ⟨hok, _, hne⟩ := g.hRel es hc
+      have hb := (total_bound k g).2
+      rw [appLen_blocks k g] at hb
+      have hrb : relocBlk cfg = relocExport es (ivtApp c cfg).length := by
+        simp only [relocBlk, hc, ivtApp_length k g]
+      rw [hrb] at hb ⊢
+      simp only [if_true, Option.isSome_some, not_true_eq_false, if_false, reloc_roundtrip _ es hne hok hb,
+        List.take_left]
+
+theorem disassemble_eq {c : Cls} {cfg : Cfg} (k : ClsF c) (g : CfgF c cfg) (dek : Option Bytes) (p : Parsed)
+    (hr : p.reloc = none) :
+    disassemble c p (rawOf c cfg) = .ok { p with app := (canon c cfg dek).app, reloc := (canon c cfg dek).reloc } := by
+  have hge := app_ge k g.hval
+  have hw : rd32 (rawOf c cfg) ivtCrcCertificateOffset = appLen c cfg := by
+    rw [rawOf_word k g _ (by decide)]; exact (ivtApp_words k g).2.2.1
+  have ht : (rawOf c cfg).take (appLen c cfg) = ivtApp c cfg ++ relocBlk cfg := by
+    rw [rawOf_split, appLen_blocks k g, ← List.length_append, List.take_left]
+  simp only [disassemble, k.rDis, hw, ht, disassemblyAppData_eq k g p hr, bind, Except.bind, pure, Except.pure,
+    if_true, canon_app cfg dek k]
+  rw [ivtApp, cleanIvt_updateIvt _ _ _ _ _ hge]
+  simp only [canon]
+
+
+/-! ### the order of the `mix_parse` calls -/
+
+/-- nobody is called while it must wait (`done`: the certificate block has been parsed) -/
+def ValidFrom (c : Cls) : Bool → List MixinName → Prop
+  | _, [] => True
+  | done, m :: rest => mustWait c done m = false ∧ ValidFrom c (done || setsCert m) rest
+
+theorem parseRound_spec (c : Cls) : ∀ (todo : List MixinName) (done : Bool),
+    ((parseRound c todo done).1 ++ (parseRound c todo done).2.1).Perm todo
+    ∧ ∀ rest, ValidFrom c (parseRound c todo done).2.2 rest → ValidFrom c done ((parseRound c todo done).1 ++ rest)
+  | [], done => by simp [parseRound]
+  | m :: ms, done => by
+    unfold parseRound
+    by_cases hw : mustWait c done m = true
+    · have ih := parseRound_spec c ms done
+      rcases hr : parseRound c ms done with ⟨o, w, d⟩
+      rw [hr] at ih
+      simp only [hw, if_true]
+      refine ⟨?_, ih.2⟩
+      exact (List.perm_middle).trans (List.Perm.cons m ih.1)
+    · have ih := parseRound_spec c ms (done || setsCert m)
+      rcases hr : parseRound c ms (done || setsCert m) with ⟨o, w, d⟩
+      rw [hr] at ih
+      simp only [hw, if_false]
+      refine ⟨List.Perm.cons m ih.1, ?_⟩
+      intro rest hv
+      exact ⟨by simpa using hw, ih.2 rest hv⟩
+
+theorem parseOrderF_spec (c : Cls) : ∀ (f : Nat) (todo : List MixinName) (done : Bool) (order : List MixinName),
+    parseOrderF c f todo done = some order → order.Perm todo ∧ ValidFrom c done order
+  | _, [], _, order, h => by
+    have : order = [] := by cases ‹Nat› <;> simp [parseOrderF] at h <;> exact h
+    subst this; exact ⟨List.Perm.refl _, trivial⟩
+  | 0, _ :: _, _, order, h => by simp [parseOrderF] at h
+  | f + 1, t :: ts, done, order, h => by
+    have sp := parseRound_spec c (t :: ts) done
+    simp only [parseOrderF] at h
+    rcases hr : parseRound c (t :: ts) done with ⟨o, w, d⟩
+    rw [hr] at h sp
+    simp only at h sp
+    split at h
+    · cases h
+    · simp only [Option.map_eq_some_iff] at h
+      obtain ⟨order', ho, rfl⟩ := h
+      have ih := parseOrderF_spec c f w d order' ho
+      exact ⟨(List.Perm.append_left o ih.1).trans sp.1, sp.2 _ ih.2⟩
+
+theorem parseOrder_spec {c : Cls} {order : List MixinName} (h : parseOrder c = some order) :
+    order.Perm c.dataMixins ∧ ValidFrom c false order := parseOrderF_spec c _ _ _ _ h
+
+
+/-! ### what the parser reads in the image -/
+
+section image
+variable {co : CryptoOps} {c : Cls} {cfg : Cfg}
+
+theorem img_flags (co : CryptoOps) (k : ClsF c) (g : CfgF c cfg) (sig : Bytes) :
+    flagsIn (imgOf co c cfg sig) = flagsOf c cfg := by
+  unfold flagsIn
+  rw [imgOf_head co k g _ _ (by decide)]; exact (ivtApp_words k g).2.1
+
+theorem ksLen_eq (g : CfgF c cfg) : ksLen cfg = if cfg.keyStore.isSome then keyStoreSize else 0 := by
+  unfold ksLen
+  cases h : cfg.keyStore with
+  | none => rfl
+  | some ks => simp [(g.hKs ks h).1]
+
+theorem img_shift (co : CryptoOps) (k : ClsF c) (g : CfgF c cfg) (sig : Bytes) :
+    hmacShift c (imgOf co c cfg sig) = shift c cfg := by
+  unfold hmacShift shift
+  rw [img_flags co k g, (flags_get k g).2.2.2.1, k.aHmac, ksLen_eq g]
+
+theorem img_certOffset (hl : CryptoLaws co) (k : ClsF c) (g : CfgF c cfg) (sig : Bytes) (hs : sig.length = cfg.sigLen) :
+    certOffsetChecked c (imgOf co c cfg sig) = .ok (appLen c cfg) := by
+  have hlen := imgOf_length_total hl k g sig hs
+  have hge := app_ge k g.hval
+  have hl2 := imgOf_length hl k g sig
+  rw [appLen_eq cfg k] at hl2
+  simp only [minIvtSize] at hge
+  have hw : rd32 (imgOf co c cfg sig) ivtImageLengthOffset = (if c.zeroTotalLength then 0 else (imgOf co c cfg sig).length) := by
+    rw [imgOf_head co k g _ _ (by decide), (ivtApp_words k g).1, hlen]
+  have hc : rd32 (imgOf co c cfg sig) ivtCrcCertificateOffset = appLen c cfg := by
+    rw [imgOf_head co k g _ _ (by decide), (ivtApp_words k g).2.2.1]
+  have ht : rd32 (imgOf co c cfg sig) ivtImageLengthOffset ≤ (imgOf co c cfg sig).length := by
+    rw [hw]; split <;> omega
+  have hL : 56 ≤ (imgOf co c cfg sig).length := by omega
+  have : checkTotalLength c (imgOf co c cfg sig) = .ok () := by
+    unfold checkTotalLength
+    generalize (imgOf co c cfg sig).length = L at *
+    generalize rd32 (imgOf co c cfg sig) ivtImageLengthOffset = t at *
+    have h1 : ¬ L < minIvtSize := by simp only [minIvtSize]; omega
+    have h2 : ¬ t > L := by omega
+    simp only [h1, h2, if_false, and_false]
+    split <;> rfl
+  simp only [certOffsetChecked, this, bind, Except.bind, pure, Except.pure, hc]
+
+theorem img_drop (hl : CryptoLaws co) (k : ClsF c) (g : CfgF c cfg) (sig : Bytes) :
+    (imgOf co c cfg sig).drop (appLen c cfg + shift c cfg) = certInImage c cfg ++ (cfg.tz.bytes ++ sig) := by
+  rw [imgOf_split, ← preOf_length hl k g, List.append_assoc, List.drop_left]
+
+theorem img_tz (hl : CryptoLaws co) (k : ClsF c) (g : CfgF c cfg) (sig : Bytes) :
+    slice (imgOf co c cfg sig) (appLen c cfg + cfg.cert.length + shift c cfg)
+      (appLen c cfg + cfg.cert.length + shift c cfg + cfg.tz.bytes.length) = cfg.tz.bytes := by
+  have e : imgOf co c cfg sig = (preOf co c cfg ++ certInImage c cfg) ++ cfg.tz.bytes ++ sig := by
+    rw [imgOf_split]; simp only [List.append_assoc]
+  have hlen : appLen c cfg + cfg.cert.length + shift c cfg = (preOf co c cfg ++ certInImage c cfg).length := by
+    rw [List.length_append, preOf_length hl k g, certInImage_length k g]; omega
+  rw [hlen, e]
+  exact slice_append_mid _ _ _
+
+theorem img_ks (hl : CryptoLaws co) (k : ClsF c) (g : CfgF c cfg) (sig : Bytes) (ks : Bytes) (hks : cfg.keyStore = some ks) :
+    slice (imgOf co c cfg sig) (hmacOffset + hmacSize) (hmacOffset + hmacSize + keyStoreSize) = ks := by
+  obtain ⟨hkl, hK⟩ := g.hKs ks hks
+  have hH : c.has .Mbi_MixinHmac = true := by
+    rcases k.hKsH with h | h
+    · rw [hK] at h; cases h
+    · exact h
+  have hal := g.hAppH hH
+  cases hk : cfg.hmacKey with
+  | none => have := g.hHkN hk; rw [hH] at this; cases this
+  | some key =>
+    have e : imgOf co c cfg sig = ((ivtApp c cfg).take hmacOffset ++ computeHmac co cfg ((ivtApp c cfg).take hmacOffset))
+        ++ ks ++ ((ivtApp c cfg).drop hmacOffset ++ relocBlk cfg ++ certInImage c cfg ++ cfg.tz.bytes ++ sig) := by
+      simp only [imgOf, insOf, hH, if_true, hks, Option.getD_some, List.append_assoc]
+    have hlen : hmacOffset + hmacSize
+        = ((ivtApp c cfg).take hmacOffset ++ computeHmac co cfg ((ivtApp c cfg).take hmacOffset)).length := by
+      simp only [List.length_append, List.length_take, ivtApp_length k g, computeHmac, hk, hmac_length hl, HashAlg.size,
+        hmacSize]
+      omega
+    rw [hlen, e, ← hkl]
+    exact slice_append_mid _ _ _
+
+end image
+
+
+/-! ### the certificate block header survives `image_length` -/
+
+theorem rd32_drop (x : Bytes) (n off : Nat) : rd32 (x.drop n) off = rd32 x (n + off) := by
+  unfold rd32
+  rw [List.drop_drop]
+
+theorem certSet_facts (cert : Bytes) (v : Nat) (h : certHeaderSize ≤ cert.length) :
+    (certSetImageLength cert v).length = cert.length
+    ∧ (certSetImageLength cert v).take 4 = cert.take 4
+    ∧ rd32 (certSetImageLength cert v) 8 = rd32 cert 8
+    ∧ rd32 (certSetImageLength cert v) certTableLengthOffset = rd32 cert certTableLengthOffset := by
+  simp only [certHeaderSize] at h
+  have e : certSetImageLength cert v = cert.take 20 ++ le32 v ++ cert.drop 24 := by
+    simp only [certSetImageLength, setAt, certImageLengthOffset, le32_length]
+  have l20 : (cert.take 20).length = 20 := by rw [List.length_take]; omega
+  refine ⟨?_, ?_, ?_, ?_⟩
+  · rw [e]; simp only [List.length_append, List.length_take, List.length_drop, le32_length]; omega
+  · rw [e, List.append_assoc, List.take_append_of_le_length (by omega), List.take_take]; rfl
+  · rw [e, List.append_assoc, rd32_append_left _ _ _ (by omega), rd32_take _ _ _ (by omega)]
+  · have : certTableLengthOffset = (cert.take 20 ++ le32 v).length + 4 := by
+      simp only [List.length_append, l20, le32_length, certTableLengthOffset]
+    rw [e, this, rd32_append_right, rd32_drop]
+    simp only [List.length_append, l20, le32_length]
+
+theorem alignNat4_ge (n : Nat) : n ≤ alignNat n 4 := by
+  unfold alignNat; omega
+
+section image
+variable {co : CryptoOps} {env : Env} {c : Cls} {cfg : Cfg}
+
+/-- the certificate block the parser builds -/
+def certOf (c : Cls) (cfg : Cfg) : CertInfo := ⟨certInImage c cfg, cfg.cert.length, cfg.sigLen, true⟩
+
+theorem parse_certV1 (hl : CryptoLaws co) (he : EnvOK env c cfg) (k : ClsF c) (g : CfgF c cfg) (sig : Bytes)
+    (hs : sig.length = cfg.sigLen) (dek : Option Bytes) (p : Parsed) (m : MixinName)
+    (hm : provider m .mix_parse = some .Mbi_MixinCertBlockV1) :
+    mixParse env c dek (imgOf co c cfg sig) p m = .ok { p with cert := some (certOf c cfg) } := by
+  obtain ⟨f1, f2, f3, f4⟩ := certSet_facts cfg.cert (totalLenForCertBlock c cfg).toNat g.hCertLen
+  rw [← certInImage_eq cfg k] at f1 f2 f3 f4
+  have hcl := g.hCertLen
+  have hsz := g.hCertSz
+  have hv : certV1Size (certInImage c cfg ++ (cfg.tz.bytes ++ sig)) = cfg.cert.length := by
+    rw [← hsz]; unfold certV1Size
+    rw [rd32_append_left _ _ _ (by rw [f1]; simp only [certHeaderSize, certTableLengthOffset] at *; omega), f4]
+  have hge := alignNat4_ge (certHeaderSize + rd32 cfg.cert certTableLengthOffset + rkhtEntries * rkhSize)
+  unfold certV1Size at hsz
+  rw [hsz] at hge
+  obtain ⟨e1, e2⟩ := he.1 k.hV1 (cfg.tz.bytes ++ sig)
+  simp only [certHeaderSize, certTableLengthOffset, rkhtEntries, rkhSize] at *
+  have c1 : ¬ (certInImage c cfg ++ (cfg.tz.bytes ++ sig)).length < 32 := by
+    simp only [List.length_append, f1]; omega
+  have c2 : (certInImage c cfg ++ (cfg.tz.bytes ++ sig)).take 4 = certHeaderSignature := by
+    rw [List.take_append_of_le_length (by omega), f2, g.hCertSig]
+  have c3 : rd32 (certInImage c cfg ++ (cfg.tz.bytes ++ sig)) 8 = 32 := by
+    rw [rd32_append_left _ _ _ (by omega), f3, g.hCertHdr]; rfl
+  have c4 : ¬ (certInImage c cfg ++ (cfg.tz.bytes ++ sig)).length
+      < rd32 (certInImage c cfg ++ (cfg.tz.bytes ++ sig)) 28 + 4 * 32 := by
+    rw [rd32_append_left _ _ _ (by omega), f4]; simp only [List.length_append, f1]; omega
+  have c5 : (certInImage c cfg ++ (cfg.tz.bytes ++ sig)).take cfg.cert.length = certInImage c cfg := by
+    rw [← f1, List.take_left]
+  simp only [mixParse, hm, img_certOffset hl k g sig hs, img_shift co k g, bind, Except.bind, img_drop hl k g, hv, e1, e2,
+    certHeaderSize, certTableLengthOffset, rkhtEntries, rkhSize, c1, c2, c3, c4, c5, if_false, ne_eq, not_true_eq_false,
+    pure, Except.pure, certOf]
+
+end image
+
+
+section image
+variable {co : CryptoOps} {env : Env} {c : Cls} {cfg : Cfg}
+
+theorem parse_tz (hl : CryptoLaws co) (k : ClsF c) (g : CfgF c cfg) (sig : Bytes)
+    (hs : sig.length = cfg.sigLen) (dek : Option Bytes) (p : Parsed) (m : MixinName)
+    (hm : provider m .mix_parse = some .Mbi_MixinTrustZone) (hc : p.cert = some (certOf c cfg)) :
+    mixParse env c dek (imgOf co c cfg sig) p m = .ok { p with tz := cfg.tz } := by
+  simp only [mixParse, hm, img_flags co k g, (flags_get k g).1, k.aCert, if_true, hc, img_certOffset hl k g sig hs,
+    img_shift co k g, bind, Except.bind, certOf]
+  cases ht : cfg.tz with
+  | enabled => simp [TzCfg.tag, tzEnabled, tzCustom, tzDisabled]
+  | disabled => simp [TzCfg.tag, tzEnabled, tzCustom, tzDisabled]
+  | custom d =>
+    obtain ⟨hd, hpos⟩ := g.hTzc d ht
+    have := img_tz hl k g sig
+    rw [ht] at this
+    simp only [TzCfg.bytes, hd] at this
+    simp only [TzCfg.tag, tzEnabled, tzCustom, tzDisabled, this, tzFromBinary, hd]
+    simp [pure, Except.pure, ← hd]
+
+theorem parse_la (k : ClsF c) (g : CfgF c cfg) (sig : Bytes) (dek : Option Bytes) (p : Parsed) (m : MixinName)
+    (hm : provider m .mix_parse = some .Mbi_MixinLoadAddress) :
+    mixParse env c dek (imgOf co c cfg sig) p m = .ok { p with loadAddress := cfg.loadAddress } := by
+  have : rd32 (imgOf co c cfg sig) ivtLoadAddrOffset = cfg.loadAddress := by
+    rw [imgOf_head co k g _ _ (by decide), (ivtApp_words k g).2.2.2]
+    cases h : c.has .Mbi_MixinLoadAddress with
+    | true => rfl
+    | false => simp [g.dLA h]
+  simp only [mixParse, hm, this]
+
+theorem parse_ver (k : ClsF c) (g : CfgF c cfg) (sig : Bytes) (dek : Option Bytes) (p : Parsed) (m : MixinName)
+    (hm : provider m .mix_parse = some .Mbi_MixinImageVersion) :
+    mixParse env c dek (imgOf co c cfg sig) p m = .ok { p with imageVersion := cfg.imageVersion } := by
+  have : getImageVersion (flagsOf c cfg) = cfg.imageVersion := by
+    rw [(flags_get k g).2.2.2.2.2]
+    cases h : c.has .Mbi_MixinImageVersion with
+    | true => rfl
+    | false => simp [g.dVer h]
+  simp only [mixParse, hm, img_flags co k g, this]
+
+theorem parse_sub (k : ClsF c) (g : CfgF c cfg) (sig : Bytes) (dek : Option Bytes) (p : Parsed) (m : MixinName)
+    (hm : provider m .mix_parse = some .Mbi_MixinImageSubType) :
+    mixParse env c dek (imgOf co c cfg sig) p m = .ok { p with subType := cfg.subType } := by
+  have : getSubType (flagsOf c cfg) = cfg.subType := by
+    rw [(flags_get k g).2.1]
+    cases h : c.has .Mbi_MixinImageSubType with
+    | true => rfl
+    | false => simp [g.dSub h]
+  simp only [mixParse, hm, img_flags co k g, this]
+
+theorem parse_hw (k : ClsF c) (g : CfgF c cfg) (sig : Bytes) (dek : Option Bytes) (p : Parsed) (m : MixinName)
+    (hm : provider m .mix_parse = some .Mbi_MixinHwKey) :
+    mixParse env c dek (imgOf co c cfg sig) p m = .ok { p with hwKey := cfg.hwKey } := by
+  have : getHwKeyEnabled (flagsOf c cfg) = cfg.hwKey := by
+    rw [(flags_get k g).2.2.1]
+    cases h : c.has .Mbi_MixinHwKey with
+    | true => simp
+    | false => simp [g.dHw h]
+  simp only [mixParse, hm, img_flags co k g, this]
+
+theorem parse_ks (hl : CryptoLaws co) (k : ClsF c) (g : CfgF c cfg) (sig : Bytes) (dek : Option Bytes) (p : Parsed)
+    (m : MixinName) (hm : provider m .mix_parse = some .Mbi_MixinKeyStore) :
+    mixParse env c dek (imgOf co c cfg sig) p m = .ok { p with keyStore := cfg.keyStore } := by
+  simp only [mixParse, hm, img_flags co k g, (flags_get k g).2.2.2.1]
+  cases hks : cfg.keyStore with
+  | none => simp
+  | some ks =>
+    have hl' := (g.hKs ks hks).1
+    have hne : ks ≠ [] := by intro h; rw [h] at hl'; simp [keyStoreSize] at hl'
+    simp [img_ks hl k g sig ks hks, hl', hne]
+
+theorem parse_hmac (sig : Bytes) (dek : Option Bytes) (p : Parsed)
+    (m : MixinName) (hm : provider m .mix_parse = some .Mbi_MixinHmac) :
+    mixParse env c dek (imgOf co c cfg sig) p m
+      = .ok (match dek with | some key => { p with hmacKey := some key } | none => p) := by
+  cases dek <;> simp only [mixParse, hm]
+
+end image
+
+
+/-! ### which mixins a signedV1 class can contain -/
+
+theorem derivesFrom_self (m : MixinName) : derivesFrom m m = true := by simp [derivesFrom]
+
+theorem mem_has {c : Cls} {m : MixinName} (hm : m ∈ c.dataMixins) : c.has m = true := by
+  simp only [Cls.dataMixins, List.mem_filter] at hm
+  simp only [Cls.has, List.any_eq_true]
+  exact ⟨m, hm.1, derivesFrom_self m⟩
+
+theorem mem_optList {x m : MixinName} {b : Bool} (h : x ∈ optList b m) : x = m := by
+  cases b <;> simp [optList] at h; exact h
+
+theorem lenProv_cases {c : Cls} (k : ClsF c) {m d : MixinName} (hm : m ∈ c.dataMixins) (hd : provider m .mix_len = some d) :
+    d = .Mbi_MixinApp ∨ d = .Mbi_MixinTrustZone ∨ d = .Mbi_MixinCertBlockV1 ∨ d = .Mbi_MixinRelocTable
+      ∨ d = .Mbi_MixinHmac ∨ d = .Mbi_MixinKeyStore := by
+  have hp := perm_of_lenProvidersAre _ _ k.lenP
+  have : d ∈ c.lenProviders.filterMap id := by
+    simp only [List.mem_filterMap, Cls.lenProviders, List.mem_map, id]
+    exact ⟨some d, ⟨m, hm, hd⟩, rfl⟩
+  have := hp.subset this
+  simp only [List.mem_append, List.mem_cons, List.not_mem_nil, or_false] at this
+  rcases this with (((h | h | h) | h) | h) | h
+  · exact Or.inl h
+  · exact Or.inr (Or.inl h)
+  · exact Or.inr (Or.inr (Or.inl h))
+  · exact Or.inr (Or.inr (Or.inr (Or.inl (mem_optList h))))
+  · exact Or.inr (Or.inr (Or.inr (Or.inr (Or.inl (mem_optList h)))))
+  · exact Or.inr (Or.inr (Or.inr (Or.inr (Or.inr (mem_optList h)))))
+
+/-- the `mix_parse` providers that cannot occur -/
+theorem parse_allowed {c : Cls} (k : ClsF c) {m : MixinName} (hm : m ∈ c.dataMixins) :
+    provider m .mix_parse ≠ some .Mbi_MixinCtrInitVector ∧ provider m .mix_parse ≠ some .Mbi_MixinCertBlockV21
+    ∧ provider m .mix_parse ≠ some .Mbi_MixinManifest ∧ provider m .mix_parse ≠ some .Mbi_MixinBca
+    ∧ provider m .mix_parse ≠ some .Mbi_MixinFcf := by
+  have h1 := mem_has hm
+  have h2 := fun d => lenProv_cases k (d := d) hm
+  have h3 := k.hCtr
+  have h4 := k.hV21
+  cases m <;>
+    first
+    | (exact by decide)
+    | (exfalso; rw [h1] at h3; cases h3)
+    | (exfalso; rw [h1] at h4; cases h4)
+    | (exfalso; have := h2 _ rfl; simp at this)
+
+
+/-! ### the state of the parser after a set of `mix_parse` calls -/
+
+/-- has a mixin with this `mix_parse` been called? -/
+def hasP (X : MixinName) (pr : List MixinName) : Bool := pr.any (fun m => provider m .mix_parse == some X)
+
+/-- the parser's object after the calls `pr` (in any order) -/
+def build (c : Cls) (cfg : Cfg) (dek : Option Bytes) (pr : List MixinName) : Parsed :=
+  { loadAddress := if hasP .Mbi_MixinLoadAddress pr then cfg.loadAddress else 0
+    imageVersion := if hasP .Mbi_MixinImageVersion pr then cfg.imageVersion else 0
+    subType := if hasP .Mbi_MixinImageSubType pr then cfg.subType else 0
+    tz := if hasP .Mbi_MixinTrustZone pr then cfg.tz else .enabled
+    hwKey := hasP .Mbi_MixinHwKey pr && cfg.hwKey
+    keyStore := if hasP .Mbi_MixinKeyStore pr then cfg.keyStore else none
+    hmacKey := if hasP .Mbi_MixinHmac pr then dek else none
+    cert := if pr.any setsCert then some (certOf c cfg) else none }
+
+theorem build_nil (c : Cls) (cfg : Cfg) (dek : Option Bytes) : build c cfg dek [] = {} := by
+  simp [build, hasP]
+
+theorem hasP_cons (X m : MixinName) (pr : List MixinName) :
+    hasP X (m :: pr) = (provider m .mix_parse == some X || hasP X pr) := by
+  simp [hasP]
+
+theorem mix_beq (a b : MixinName) : (a == b) = decide (a = b) := by
+  cases h : decide (a = b) <;> simp_all
+
+section image
+variable {co : CryptoOps} {env : Env} {c : Cls} {cfg : Cfg}
+
+theorem step (hl : CryptoLaws co) (he : EnvOK env c cfg) (k : ClsF c) (g : CfgF c cfg) (sig : Bytes)
+    (hs : sig.length = cfg.sigLen) (dek : Option Bytes) (m : MixinName) (hm : m ∈ c.dataMixins) (pr : List MixinName)
+    (hw : mustWait c (pr.any setsCert) m = false) :
+    mixParse env c dek (imgOf co c cfg sig) (build c cfg dek pr) m = .ok (build c cfg dek (m :: pr)) := by
+  obtain ⟨n1, n2, n3, n4, n5⟩ := parse_allowed k hm
+  rcases hp : provider m .mix_parse with _ | X
+  · have e : build c cfg dek (m :: pr) = build c cfg dek pr := by
+      simp [build, hasP_cons, hp, setsCert, mix_beq]
+    rw [e]; simp only [mixParse, hp]
+  · cases X
+    case Mbi_MixinCertBlockV1 =>
+      rw [parse_certV1 hl he k g sig hs dek _ m hp]
+      simp [build, hasP_cons, hp, setsCert, mix_beq]
+    case Mbi_MixinTrustZone =>
+      have hd : pr.any setsCert = true := by
+        have : preParsed m = [.cert_block] := by
+          cases m <;> first | rfl | (exact absurd hp (by decide))
+        simpa [mustWait, this, k.aCert] using hw
+      rw [parse_tz hl k g sig hs dek _ m hp (by simp [build, hd])]
+      simp [build, hasP_cons, hp, setsCert, mix_beq]
+    case Mbi_MixinLoadAddress =>
+      rw [parse_la k g sig dek _ m hp]; simp [build, hasP_cons, hp, setsCert, mix_beq]
+    case Mbi_MixinImageVersion =>
+      rw [parse_ver k g sig dek _ m hp]; simp [build, hasP_cons, hp, setsCert, mix_beq]
+    case Mbi_MixinImageSubType =>
+      rw [parse_sub k g sig dek _ m hp]; simp [build, hasP_cons, hp, setsCert, mix_beq]
+    case Mbi_MixinHwKey =>
+      rw [parse_hw k g sig dek _ m hp]; simp [build, hasP_cons, hp, setsCert, mix_beq]
+    case Mbi_MixinKeyStore =>
+      rw [parse_ks hl k g sig dek _ m hp]; simp [build, hasP_cons, hp, setsCert, mix_beq]
+    case Mbi_MixinHmac =>
+      rw [parse_hmac sig dek _ m hp]
+      cases dek <;> simp [build, hasP_cons, hp, setsCert, mix_beq]
+    case Mbi_MixinCtrInitVector => exact absurd hp n1
+    case Mbi_MixinCertBlockV21 => exact absurd hp n2
+    case Mbi_MixinManifest => exact absurd hp n3
+    case Mbi_MixinBca => exact absurd hp n4
+    case Mbi_MixinFcf => exact absurd hp n5
+    all_goals
+      have e : build c cfg dek (m :: pr) = build c cfg dek pr := by
+        simp [build, hasP_cons, hp, setsCert, mix_beq]
+      rw [e]; simp only [mixParse, hp]
+
+theorem fold_ok (hl : CryptoLaws co) (he : EnvOK env c cfg) (k : ClsF c) (g : CfgF c cfg) (sig : Bytes)
+    (hs : sig.length = cfg.sigLen) (dek : Option Bytes) :
+    ∀ (order pr : List MixinName), ValidFrom c (pr.any setsCert) order → (∀ m ∈ order, m ∈ c.dataMixins) →
+      order.foldlM (mixParse env c dek (imgOf co c cfg sig)) (build c cfg dek pr)
+        = .ok (build c cfg dek (order.reverse ++ pr))
+  | [], pr, _, _ => rfl
+  | m :: rest, pr, hv, hmem => by
+    rw [List.foldlM_cons, step hl he k g sig hs dek m (hmem m (by simp)) pr hv.1]
+    have ih := fold_ok hl he k g sig hs dek rest (m :: pr)
+      (by rw [List.any_cons, Bool.or_comm]; exact hv.2) (fun x hx => hmem x (by simp [hx]))
+    simp only [bind, Except.bind, ih, List.reverse_cons, List.append_assoc, List.singleton_append]
+
+end image
+
+
+/-! ### the parsed object -/
+
+section image
+variable {co : CryptoOps} {env : Env} {c : Cls} {cfg : Cfg}
+
+theorem hasP_data (c : Cls) (X base : MixinName)
+    (h : ∀ m, (isData m && (provider m .mix_parse == some X)) = derivesFrom m base) :
+    hasP X c.dataMixins = c.has base := any_data c _ _ h
+
+theorem hasP_tz (k : ClsF c) : hasP .Mbi_MixinTrustZone c.dataMixins = true := by
+  have h := k.hTz
+  simp only [Cls.has, List.any_eq_true] at h
+  obtain ⟨m, hm, hd⟩ := h
+  simp only [hasP, List.any_eq_true]
+  by_cases hdat : isData m = true
+  · have hmem : m ∈ c.dataMixins := by simp [Cls.dataMixins, hm, hdat]
+    have n3 := (parse_allowed k hmem).2.2.1
+    refine ⟨m, hmem, ?_⟩
+    cases m <;> first | rfl | (exact absurd hd (by decide)) | (exact absurd rfl n3)
+  · cases m <;> first | (exact absurd hd (by decide)) | (exact absurd rfl hdat)
+
+theorem any_setsCert (k : ClsF c) : c.dataMixins.any setsCert = true := by
+  have h := k.hV1
+  simp only [Cls.has, List.any_eq_true] at h
+  obtain ⟨m, hm, hd⟩ := h
+  have : m = .Mbi_MixinCertBlockV1 := by cases m <;> first | rfl | (revert hd; decide)
+  subst this
+  simp only [List.any_eq_true]
+  exact ⟨.Mbi_MixinCertBlockV1, by simp [Cls.dataMixins, hm, isData], by decide⟩
+
+/-- the parsed object before `disassemble_image` -/
+def preCanon (c : Cls) (cfg : Cfg) (dek : Option Bytes) : Parsed := { canon c cfg dek with app := none, reloc := none }
+
+theorem build_all (k : ClsF c) (g : CfgF c cfg) (dek : Option Bytes) (order : List MixinName)
+    (hperm : order.Perm c.dataMixins) : build c cfg dek (order.reverse ++ []) = preCanon c cfg dek := by
+  have hP : ∀ X, hasP X (order.reverse ++ []) = hasP X c.dataMixins := by
+    intro X; simp only [hasP, List.append_nil, List.any_reverse]; exact hperm.any_eq
+  have hS : (order.reverse ++ []).any setsCert = true := by
+    rw [List.append_nil, List.any_reverse, hperm.any_eq]; exact any_setsCert k
+  have hTZ : c.hasTrustZone = true := by simp [Cls.hasTrustZone, k.hTz]
+  simp only [build, preCanon, canon, hP, hS, hasP_tz k, if_true,
+    hasP_data c .Mbi_MixinLoadAddress .Mbi_MixinLoadAddress (by intro m; cases m <;> rfl),
+    hasP_data c .Mbi_MixinImageVersion .Mbi_MixinImageVersion (by intro m; cases m <;> rfl),
+    hasP_data c .Mbi_MixinImageSubType .Mbi_MixinImageSubType (by intro m; cases m <;> rfl),
+    hasP_data c .Mbi_MixinHwKey .Mbi_MixinHwKey (by intro m; cases m <;> rfl),
+    hasP_data c .Mbi_MixinKeyStore .Mbi_MixinKeyStore (by intro m; cases m <;> rfl),
+    hasP_data c .Mbi_MixinHmac .Mbi_MixinHmac (by intro m; cases m <;> rfl),
+    hTZ, k.hCtr, k.hV1, k.hMk, g.hBca, g.hFcf, certOf]
+  simp only [Option.isSome_none, Bool.false_eq_true, if_false, reduceCtorEq, ite_self]
+  congr 1
+  split
+  · cases h : cfg.keyStore with
+    | none => rfl
+    | some ks =>
+      have := (g.hKs ks h).1
+      cases ks with
+      | nil => simp [keyStoreSize] at this
+      | cons => rfl
+  · rfl
+
+theorem mixParseAll_eq (hl : CryptoLaws co) (he : EnvOK env c cfg) (k : ClsF c) (g : CfgF c cfg) (sig : Bytes)
+    (hs : sig.length = cfg.sigLen) (dek : Option Bytes) :
+    mixParseAll env c dek (imgOf co c cfg sig) = .ok (preCanon c cfg dek) := by
+  have ho := k.hOrder
+  rcases hpo : parseOrder c with _ | order
+  · rw [hpo] at ho; cases ho
+  · obtain ⟨hperm, hvalid⟩ := parseOrder_spec hpo
+    have := fold_ok hl he k g sig hs dek order [] (by simpa using hvalid) (fun m hm => hperm.subset hm)
+    rw [build_nil, build_all k g dek order hperm] at this
+    simp only [mixParseAll, hpo, this]
+
+end image
+
+
+/-! ### the reverts -/
+
+section image
+variable {co : CryptoOps} {env : Env} {c : Cls} {cfg : Cfg}
+
+theorem finalizeRevert_eq (hl : CryptoLaws co) (k : ClsF c) (g : CfgF c cfg) (sig : Bytes) (p : Parsed) :
+    finalizeRevert c p (imgOf co c cfg sig) = .ok (rawOf c cfg ++ sig) := by
+  have e0 : ∀ (x y : Bytes), x.take hmacOffset ++ (x.drop hmacOffset ++ y) = x ++ y := by
+    intro x y; rw [← List.append_assoc, List.take_append_drop]
+  simp only [finalizeRevert, resolve_finalize k]
+  cases hH : c.has .Mbi_MixinHmac with
+  | false =>
+    simp only [Bool.false_eq_true, if_false, imgOf, insOf, hH, List.append_nil, rawOf, List.append_assoc, e0]
+  | true =>
+    have hal : hmacOffset ≤ (ivtApp c cfg).length := by rw [ivtApp_length k g]; exact g.hAppH hH
+    have hsh : hmacOffset + hmacSize + (if getKeyStorePresented (flagsIn (imgOf co c cfg sig)) = true then keyStoreSize else 0)
+        = ((ivtApp c cfg).take hmacOffset ++ insOf co c cfg).length := by
+      rw [img_flags co k g, (flags_get k g).2.2.2.1, List.length_append, insOf_length hl g, shift, hH, ksLen_eq g,
+        List.length_take]
+      simp only [if_true]; omega
+    have e1 : (imgOf co c cfg sig).take hmacOffset = (ivtApp c cfg).take hmacOffset := by
+      simp only [imgOf, List.append_assoc]
+      rw [List.take_append_of_le_length (by rw [List.length_take]; omega), List.take_take, Nat.min_self]
+    have e2 : (imgOf co c cfg sig).drop ((ivtApp c cfg).take hmacOffset ++ insOf co c cfg).length
+        = (ivtApp c cfg).drop hmacOffset ++ relocBlk cfg ++ certInImage c cfg ++ cfg.tz.bytes ++ sig := by
+      unfold imgOf; rw [List.drop_left]
+    simp only [if_true, hsh, e1, e2, rawOf, List.append_assoc, e0]
+
+theorem signRevert_eq (k : ClsF c) (g : CfgF c cfg) (sig : Bytes) (hs : sig.length = cfg.sigLen) (p : Parsed)
+    (hp : p.cert = some (certOf c cfg)) :
+    signRevert c p (rawOf c cfg ++ sig) = .ok (rawOf c cfg) := by
+  have hne : ¬ (rawOf c cfg ++ sig).isEmpty = true := by
+    have := g.hSigLen
+    simp only [List.isEmpty_iff, List.append_eq_nil_iff, not_and]
+    intro _ h; rw [h] at hs; simp at hs; omega
+  simp only [signRevert, k.sk, hp, if_neg hne, certOf, not_true_eq_false, if_false, dropLast, List.length_append, hs,
+    Nat.add_sub_cancel, List.take_left]
+
+theorem preCanon_cert (k : ClsF c) (dek : Option Bytes) : (preCanon c cfg dek).cert = some (certOf c cfg) := by
+  simp only [preCanon, canon, k.hV1, if_true, certOf]
+
+theorem parseImage_eq (hl : CryptoLaws co) (he : EnvOK env c cfg) (k : ClsF c) (g : CfgF c cfg) (sig : Bytes)
+    (hs : sig.length = cfg.sigLen) (dek : Option Bytes) :
+    parseImage co env c dek (imgOf co c cfg sig) = .ok (canon c cfg dek) := by
+  simp only [parseImage, mixParseAll_eq hl he k g sig hs dek, bind, Except.bind, finalizeRevert_eq hl k g,
+    signRevert_eq k g sig hs _ (preCanon_cert k dek), postEncryptRevert, k.rPe, encryptRevert, k.rEnc,
+    disassemble_eq k g dek (preCanon c cfg dek) rfl]
+  rfl
+
+end image
+
+
+/-! ### re-export of the parsed image -/
+
+/-- the configuration the parsed image gives -/
+def cfg2 (c : Cls) (cfg : Cfg) : Cfg := { cfg with app := cleanIvt (appData cfg), cert := certInImage c cfg }
+
+section image
+variable {co : CryptoOps} {env : Env} {c : Cls} {cfg : Cfg}
+
+theorem toCfg_eq (k : ClsF c) (g : CfgF c cfg) (dek : Option Bytes)
+    (hdek : c.has .Mbi_MixinHmac = true → dek = cfg.hmacKey) : (canon c cfg dek).toCfg = cfg2 c cfg := by
+  have hTZ : c.hasTrustZone = true := by simp [Cls.hasTrustZone, k.hTz]
+  have h1 : (if c.has .Mbi_MixinLoadAddress = true then cfg.loadAddress else 0) = cfg.loadAddress := by
+    cases h : c.has .Mbi_MixinLoadAddress <;> simp [g.dLA, h]
+  have h2 : (if c.has .Mbi_MixinImageVersion = true then cfg.imageVersion else 0) = cfg.imageVersion := by
+    cases h : c.has .Mbi_MixinImageVersion <;> simp [g.dVer, h]
+  have h3 : (if c.has .Mbi_MixinImageSubType = true then cfg.subType else 0) = cfg.subType := by
+    cases h : c.has .Mbi_MixinImageSubType <;> simp [g.dSub, h]
+  have h4 : (c.has .Mbi_MixinHwKey && cfg.hwKey) = cfg.hwKey := by
+    cases h : c.has .Mbi_MixinHwKey <;> simp [g.dHw, h]
+  have h5 : (if c.has .Mbi_MixinHmac = true then dek else none) = cfg.hmacKey := by
+    cases h : c.has .Mbi_MixinHmac with
+    | true => simp [hdek h]
+    | false =>
+      cases hk : cfg.hmacKey with
+      | none => simp
+      | some key => have := (g.hHk key hk).2; rw [h] at this; cases this
+  have h6 : (if c.has .Mbi_MixinRelocTable = true then cfg.reloc else none) = cfg.reloc := by
+    cases hr : cfg.reloc with
+    | none => simp
+    | some es => simp [(g.hRel es hr).2.1]
+  have h7 : (if c.has .Mbi_MixinBca = true then cfg.bca else none) = cfg.bca := by simp [g.hBca]
+  have h8 : (if c.has .Mbi_MixinFcf = true then cfg.fcf else none) = cfg.fcf := by simp [g.hFcf]
+  have h9 := (build_all k g dek c.dataMixins (List.Perm.refl _))
+  have h10 : (canon c cfg dek).keyStore = cfg.keyStore := by
+    have : (preCanon c cfg dek).keyStore = (canon c cfg dek).keyStore := rfl
+    rw [← this, ← h9]
+    simp only [build, List.append_nil, hasP, List.any_reverse]
+    cases hks : cfg.keyStore with
+    | none => simp
+    | some ks =>
+      have := (g.hKs ks hks).2
+      rw [← hasP_data c .Mbi_MixinKeyStore .Mbi_MixinKeyStore (by intro m; cases m <;> rfl)] at this
+      simp only [hasP] at this
+      simp [this]
+  have hc := h10
+  simp only [canon] at hc
+  simp only [Parsed.toCfg, cfg2]
+  simp only [canon, k.aClean, if_true, Option.getD_some, h1, h2, h3, h4, h5, h6, h7, h8, hTZ, k.hCtr, k.hV1, k.hMk, hc,
+    Option.isSome_none, Bool.false_eq_true, if_false, reduceCtorEq, g.hFwV, g.hDig, g.dCtr]
+
+end image
+
+
+theorem cfg2_loadAddress (c : Cls) (cfg : Cfg) : (cfg2 c cfg).loadAddress = cfg.loadAddress := by unfold cfg2; rfl
+theorem cfg2_imageVersion (c : Cls) (cfg : Cfg) : (cfg2 c cfg).imageVersion = cfg.imageVersion := by unfold cfg2; rfl
+theorem cfg2_subType (c : Cls) (cfg : Cfg) : (cfg2 c cfg).subType = cfg.subType := by unfold cfg2; rfl
+theorem cfg2_tz (c : Cls) (cfg : Cfg) : (cfg2 c cfg).tz = cfg.tz := by unfold cfg2; rfl
+theorem cfg2_hwKey (c : Cls) (cfg : Cfg) : (cfg2 c cfg).hwKey = cfg.hwKey := by unfold cfg2; rfl
+theorem cfg2_keyStore (c : Cls) (cfg : Cfg) : (cfg2 c cfg).keyStore = cfg.keyStore := by unfold cfg2; rfl
+theorem cfg2_hmacKey (c : Cls) (cfg : Cfg) : (cfg2 c cfg).hmacKey = cfg.hmacKey := by unfold cfg2; rfl
+theorem cfg2_ctrIv (c : Cls) (cfg : Cfg) : (cfg2 c cfg).ctrIv = cfg.ctrIv := by unfold cfg2; rfl
+theorem cfg2_reloc (c : Cls) (cfg : Cfg) : (cfg2 c cfg).reloc = cfg.reloc := by unfold cfg2; rfl
+theorem cfg2_sigLen (c : Cls) (cfg : Cfg) : (cfg2 c cfg).sigLen = cfg.sigLen := by unfold cfg2; rfl
+theorem cfg2_fwVersion (c : Cls) (cfg : Cfg) : (cfg2 c cfg).fwVersion = cfg.fwVersion := by unfold cfg2; rfl
+theorem cfg2_digest (c : Cls) (cfg : Cfg) : (cfg2 c cfg).digest = cfg.digest := by unfold cfg2; rfl
+theorem cfg2_bca (c : Cls) (cfg : Cfg) : (cfg2 c cfg).bca = cfg.bca := by unfold cfg2; rfl
+theorem cfg2_fcf (c : Cls) (cfg : Cfg) : (cfg2 c cfg).fcf = cfg.fcf := by unfold cfg2; rfl
+theorem cfg2_app (c : Cls) (cfg : Cfg) : (cfg2 c cfg).app = cleanIvt (appData cfg) := by unfold cfg2; rfl
+theorem cfg2_cert (c : Cls) (cfg : Cfg) : (cfg2 c cfg).cert = certInImage c cfg := by unfold cfg2; rfl
+
+/-- rewrite the unchanged fields of `cfg2` -/
+local macro "cfg2_simp" : tactic =>
+  `(tactic| simp only [cfg2_loadAddress, cfg2_imageVersion, cfg2_subType, cfg2_tz, cfg2_hwKey, cfg2_keyStore, cfg2_hmacKey, cfg2_ctrIv, cfg2_reloc, cfg2_sigLen, cfg2_fwVersion, cfg2_digest, cfg2_bca, cfg2_fcf])
+local macro "cfg2_simp_at" h:ident : tactic =>
+  `(tactic| simp only [cfg2_loadAddress, cfg2_imageVersion, cfg2_subType, cfg2_tz, cfg2_hwKey, cfg2_keyStore, cfg2_hmacKey, cfg2_ctrIv, cfg2_reloc, cfg2_sigLen, cfg2_fwVersion, cfg2_digest, cfg2_bca, cfg2_fcf] at $h:ident)
+
+theorem flagsOf2 (c : Cls) (cfg : Cfg) : flagsOf c (cfg2 c cfg) = flagsOf c cfg := by
+  unfold flagsOf; cfg2_simp
+
+section image
+variable {co : CryptoOps} {env : Env} {c : Cls} {cfg : Cfg}
+
+theorem appData2 (k : ClsF c) (g : CfgF c cfg) : appData (cfg2 c cfg) = cleanIvt (appData cfg) := by
+  have hge := app_ge k g.hval
+  unfold appData
+  rw [cfg2_app]
+  apply align4_of_aligned
+  rw [cleanIvt_length _ hge]
+  exact align4_length_mod _
+
+theorem appData2_length (k : ClsF c) (g : CfgF c cfg) : (appData (cfg2 c cfg)).length = (appData cfg).length := by
+  rw [appData2 k g, cleanIvt_length _ (app_ge k g.hval)]
+
+theorem cert2_length (k : ClsF c) (g : CfgF c cfg) : (cfg2 c cfg).cert.length = cfg.cert.length := by
+  rw [cfg2_cert]; exact certInImage_length k g
+
+theorem mixLenOf2 (k : ClsF c) (g : CfgF c cfg) (d : MixinName) : mixLenOf c (cfg2 c cfg) d = mixLenOf c cfg d := by
+  have h1 := appData2_length k g
+  have h2 := cert2_length k g
+  unfold mixLenOf relocLen manifestLen
+  rw [h1, h2]
+  cfg2_simp
+
+theorem totalLen2 (k : ClsF c) (g : CfgF c cfg) : totalLen c (cfg2 c cfg) = totalLen c cfg := by
+  have : mixLen c (cfg2 c cfg) = mixLen c cfg := by funext m; simp only [mixLen, mixLenOf2 k g]
+  simp only [totalLen, this]
+
+theorem legacyLen2 (k : ClsF c) (g : CfgF c cfg) : totalLenForCertBlock c (cfg2 c cfg) = totalLenForCertBlock c cfg := by
+  have : mixLen c (cfg2 c cfg) = mixLen c cfg := by funext m; simp only [mixLen, mixLenOf2 k g]
+  simp only [totalLenForCertBlock, this]
+
+theorem appLen2 (k : ClsF c) (g : CfgF c cfg) : appLen c (cfg2 c cfg) = appLen c cfg := by
+  have h1 := appData2_length k g
+  have : mixAppLen c (cfg2 c cfg) = mixAppLen c cfg := by
+    funext m; simp only [mixAppLen, h1, relocLen, cfg2_reloc]
+  simp only [appLen, this]
+
+theorem cleanIvt_rd32 (app : Bytes) (h : minIvtSize ≤ app.length) (off : Nat) (ho : off + 4 ≤ 32) :
+    rd32 (cleanIvt app) off = rd32 app off := by
+  simp only [minIvtSize] at h
+  rw [cleanIvt_eq app h]
+  simp only [List.append_assoc]
+  rw [rd32_append_left _ _ _ (by rw [List.length_take]; omega), rd32_take _ _ _ ho]
+
+theorem validate2 (k : ClsF c) (g : CfgF c cfg) : validate c (cfg2 c cfg) = .ok () := by
+  have hge := app_ge k g.hval
+  apply forM_ok_of
+  intro m hm
+  have := forM_ok _ _ g.hval m hm
+  rw [← this]
+  simp only [validateMixin, appData2 k g, cleanIvt_length _ hge, cleanIvt_rd32 _ hge 0 (by omega),
+    cleanIvt_rd32 _ hge 4 (by omega), cleanIvt_rd32 _ hge 8 (by omega)]
+  cfg2_simp
+
+theorem packGuard2 (k : ClsF c) (g : CfgF c cfg) : packGuard c (cfg2 c cfg) = .ok () := by
+  rw [← g.hpack]
+  simp only [packGuard, totalLen2 k g, flagsOf2]
+  cfg2_simp
+
+theorem cfgF2 (k : ClsF c) (g : CfgF c cfg) : CfgF c (cfg2 c cfg) := by
+  obtain ⟨f1, f2, f3, f4⟩ := certSet_facts cfg.cert (totalLenForCertBlock c cfg).toNat g.hCertLen
+  rw [← certInImage_eq cfg k] at f1 f2 f3 f4
+  constructor
+  · exact validate2 k g
+  · exact packGuard2 k g
+  · cfg2_simp; exact g.hLA
+  · cfg2_simp; exact g.hVer
+  · cfg2_simp; exact g.hSub
+  · rw [flagsOf2]; exact g.hFlags
+  · cfg2_simp; exact g.hTzc
+  · cfg2_simp; exact g.hRel
+  · cfg2_simp; exact g.hKs
+  · cfg2_simp; exact g.hHk
+  · cfg2_simp; exact g.hHkN
+  · intro h; rw [appData2_length k g]; exact g.hAppH h
+  · cfg2_simp; exact g.hBca
+  · cfg2_simp; exact g.hFcf
+  · rw [cfg2_cert, f1]; exact g.hCertLen
+  · rw [cfg2_cert, f2]; exact g.hCertSig
+  · rw [cfg2_cert, f3]; exact g.hCertHdr
+  · rw [cfg2_cert, f1, ← g.hCertSz]; unfold certV1Size; rw [f4]
+  · cfg2_simp; exact g.hSigLen
+  · cfg2_simp; exact g.hDig
+  · cfg2_simp; exact g.hFwV
+  · cfg2_simp; exact g.dVer
+  · cfg2_simp; exact g.dSub
+  · cfg2_simp; exact g.dHw
+  · cfg2_simp; exact g.dLA
+  · cfg2_simp; exact g.dCtr
+
+end image
+
+
+section image
+variable {co : CryptoOps} {env : Env} {c : Cls} {cfg : Cfg}
+
+theorem certSet_idem (cert : Bytes) (v : Nat) (h : certHeaderSize ≤ cert.length) :
+    certSetImageLength (certSetImageLength cert v) v = certSetImageLength cert v := by
+  simp only [certHeaderSize] at h
+  have e : certSetImageLength cert v = cert.take 20 ++ le32 v ++ cert.drop 24 := by
+    simp only [certSetImageLength, setAt, certImageLengthOffset, le32_length]
+  rw [e]
+  exact setAt_mid _ _ _ _ _ (by rw [List.length_take, certImageLengthOffset]; omega) rfl
+
+theorem certInImage2 (k : ClsF c) (g : CfgF c cfg) : certInImage c (cfg2 c cfg) = certInImage c cfg := by
+  rw [certInImage_eq _ k, legacyLen2 k g, cfg2_cert, certInImage_eq cfg k]
+  exact certSet_idem _ _ g.hCertLen
+
+theorem ivtApp2 (k : ClsF c) (g : CfgF c cfg) : ivtApp c (cfg2 c cfg) = ivtApp c cfg := by
+  unfold ivtApp
+  rw [totalLen2 k g, appLen2 k g, appData2 k g, updateIvt_cleanIvt _ _ _ _ _ (app_ge k g.hval)]
+  unfold updateIvt
+  simp only [flagsOf2, cfg2_loadAddress, cfg2_sigLen]
+
+theorem relocBlk2 (k : ClsF c) (g : CfgF c cfg) : relocBlk (cfg2 c cfg) = relocBlk cfg := by
+  unfold relocBlk
+  rw [appData2_length k g, cfg2_reloc]
+
+theorem rawOf2 (k : ClsF c) (g : CfgF c cfg) : rawOf c (cfg2 c cfg) = rawOf c cfg := by
+  unfold rawOf
+  rw [ivtApp2 k g, relocBlk2 k g, certInImage2 k g, cfg2_tz]
+
+theorem imgOf2 (k : ClsF c) (g : CfgF c cfg) (sig : Bytes) : imgOf co c (cfg2 c cfg) sig = imgOf co c cfg sig := by
+  unfold imgOf insOf computeHmac
+  rw [ivtApp2 k g, relocBlk2 k g, certInImage2 k g]
+  simp only [cfg2_tz, cfg2_keyStore, cfg2_hmacKey]
+
+/-- the image without its signature -/
+def bodyOf (co : CryptoOps) (c : Cls) (cfg : Cfg) : Bytes :=
+  (ivtApp c cfg).take hmacOffset ++ insOf co c cfg
+    ++ ((ivtApp c cfg).drop hmacOffset ++ relocBlk cfg ++ certInImage c cfg ++ cfg.tz.bytes)
+
+theorem imgOf_body (co : CryptoOps) (c : Cls) (cfg : Cfg) (sig : Bytes) : imgOf co c cfg sig = bodyOf co c cfg ++ sig := by
+  simp only [imgOf, bodyOf, List.append_assoc]
+
+end image
+
+end SignedV1
+
 variable {co : CryptoOps} {env : Env} {c : Cls} {cfg : Cfg} {signer : Signer}
 
 theorem disassemble_collect_signedV1 (h : Hyp co env c cfg signer) (hf : c.family = some .signedV1) (dek : Option Bytes)
     (p : Parsed) (hp : p.tz = cfg.tz) (hcert : p.cert.isSome = c.hasAttr .cert_block) (hr : p.reloc = none) :
     ∃ raw, collect c cfg = .ok raw
       ∧ disassemble c p raw = .ok { p with app := (canon c cfg dek).app, reloc := (canon c cfg dek).reloc } := by
-  sorry
+  have k := SignedV1.clsF h.hcls hf
+  have g := SignedV1.cfgF k h.hcfg
+  exact ⟨_, SignedV1.collect_eq k g, SignedV1.disassemble_eq k g dek p hr⟩
 
 theorem parse_export_signedV1 (h : Hyp co env c cfg signer) (hf : c.family = some .signedV1) (dek : Option Bytes) :
     ∃ e, exportImage co c cfg signer = .ok e ∧ parseImage co env c dek e = .ok (canon c cfg dek) := by
-  sorry
+  have k := SignedV1.clsF h.hcls hf
+  have g := SignedV1.cfgF k h.hcfg
+  exact ⟨_, SignedV1.export_eq signer k g, SignedV1.parseImage_eq h.hlaws h.henv k g _ (h.hsig _) dek⟩
 
 theorem reexport_signedV1 (h : Hyp co env c cfg signer) (hf : c.family = some .signedV1) (signer' : Signer)
     (hs' : ∀ m, (signer' m).length = cfg.sigLen) (dek : Option Bytes)
     (hdek : c.has .Mbi_MixinHmac = true → dek = cfg.hmacKey) :
     ∃ e e', exportImage co c cfg signer = .ok e ∧ exportImage co c (canon c cfg dek).toCfg signer' = .ok e'
       ∧ eqOutsideSig c cfg e e' := by
-  sorry
+  have k := SignedV1.clsF h.hcls hf
+  have g := SignedV1.cfgF k h.hcfg
+  have g2 := SignedV1.cfgF2 k g
+  refine ⟨_, SignedV1.imgOf co c cfg (signer' (SignedV1.rawOf c cfg)), SignedV1.export_eq signer k g, ?_, ?_⟩
+  · rw [SignedV1.toCfg_eq k g dek hdek, SignedV1.export_eq signer' k g2, SignedV1.imgOf2 k g, SignedV1.rawOf2 k g]
+  · have l1 := h.hsig (SignedV1.rawOf c cfg)
+    have l2 := hs' (SignedV1.rawOf c cfg)
+    simp only [eqOutsideSig, sigOffset, k.sk, SignedV1.imgOf_body, List.length_append, l1, l2, Nat.add_sub_cancel,
+      List.take_left, true_and]
+    rw [← l1, ← List.length_append, List.drop_length]
+    symm
+    apply List.drop_of_length_le
+    simp only [List.length_append, l1, l2]; omega
 
 theorem header_describes_signedV1 (h : Hyp co env c cfg signer) (hf : c.family = some .signedV1) :
     ∃ e, exportImage co c cfg signer = .ok e
@@ -41,12 +1397,32 @@ theorem header_describes_signedV1 (h : Hyp co env c cfg signer) (hf : c.family =
           ∧ (let off := appLen c cfg + (if c.has .Mbi_MixinHmac then hmacSize + (cfg.keyStore.getD []).length else 0)
              slice e off (off + cfg.cert.length)
                = (if c.has .Mbi_MixinCertBlockV1 then certInImage c cfg else cfg.cert))) := by
-  sorry
+  have k := SignedV1.clsF h.hcls hf
+  have g := SignedV1.cfgF k h.hcfg
+  obtain ⟨w1, w2, w3, w4⟩ := SignedV1.ivtApp_words k g
+  refine ⟨_, SignedV1.export_eq signer k g, ?_, ?_, ?_, ?_, ?_, ?_⟩
+  · rw [SignedV1.imgOf_head co k g _ _ (by decide), w1, SignedV1.imgOf_length_total h.hlaws k g _ (h.hsig _)]
+  · rw [SignedV1.imgOf_head co k g _ _ (by decide), w2]
+  · rw [SignedV1.imgOf_head co k g _ _ (by decide), w4]
+  · intro h0; exact absurd h0 k.hT0
+  · intro hc; rw [k.sk] at hc; cases hc
+  · intro _
+    refine ⟨by rw [SignedV1.imgOf_head co k g _ _ (by decide), w3], ?_⟩
+    have e : appLen c cfg + (if c.has .Mbi_MixinHmac then hmacSize + (cfg.keyStore.getD []).length else 0)
+        = (SignedV1.preOf co c cfg).length := by
+      rw [SignedV1.preOf_length h.hlaws k g]; rfl
+    simp only [k.hV1, if_true]
+    rw [e, SignedV1.imgOf_split, ← SignedV1.certInImage_length k g]
+    exact slice_append_mid _ _ _
 
 theorem total_len_sum_signedV1 (h : Hyp co env c cfg signer) (hf : c.family = some .signedV1) :
     ∃ e, exportImage co c cfg signer = .ok e
       ∧ (e.length : Int) = totalLen c cfg + (if c.signKind = .rsa then cfg.sigLen else 0)
           + (if c.family = some .encrypted then encIvtCopySize + encIvSize else 0) := by
-  sorry
+  have k := SignedV1.clsF h.hcls hf
+  have g := SignedV1.cfgF k h.hcfg
+  refine ⟨_, SignedV1.export_eq signer k g, ?_⟩
+  rw [SignedV1.imgOf_length h.hlaws k g, SignedV1.totalLen_nat k g, h.hsig, k.sk, hf]
+  simp
 
 end SpsdkVerif.Mbi
